@@ -85,6 +85,14 @@ class SBytesMap:
     def keys(self):
         return SKeySet(self)
 
+    def iterate(self):
+        # the abstract map has no enumeration order (dict keeps insertion order, OnDiskBytesDict iterates as an
+        # EMPTY dict): code that iterates over it directly depends on the concrete class -- not modelled
+        raise Unsupported("iteration over the abstract buffer map (behaviour differs between dict and OnDiskBytesDict)")
+
+    def __iter__(self):
+        raise Unsupported("iteration over the abstract buffer map (behaviour differs between dict and OnDiskBytesDict)")
+
     def length(self):
         return self.card
 
